@@ -168,20 +168,19 @@ Definition created_outs (st : state) (p : pending) : list out :=
   flat_map (fun e => if connected st e.(e_conn) && negb e.(e_auto)
                      then [OStarted e.(e_conn) e.(e_id) e.(e_serial) 1] else []) p.(p_entries).
 
-(* bus_dispatch_matches for the addressed recipient o, as far as it can refuse: bus_context_check_security_policy
-   (send / receive rules -> AccessDenied; then bus_connections_expect_reply: a method call that expects a reply takes one
-   of the caller's max_replies_per_connection slots -> LimitsExceeded when none is left), then the unix-fd capability of
-   the recipient (NotSupported; the reply slot recorded a moment earlier stays: finding F7 of C09).
+(* bus_dispatch_matches for the addressed recipient o, as far as it can refuse: first the unix-fd capability of the
+   recipient (NotSupported), then bus_context_check_security_policy: send / receive rules (AccessDenied), then
+   bus_connections_expect_reply: a method call that expects a reply takes one of the caller's
+   max_replies_per_connection slots (LimitsExceeded when none is left).
    [replies] = pending replies so far; returns the pending replies afterwards and what is sent *)
 Definition count_replies (c : N) (l : list (N * N)) : N := nlen (filter (fun p => fst p =? c) l).
 
 Definition deliver (cf : cfg) (names : list N) (fdok : bool) (replies : list (N * N))
                    (o id from serial cl : N) : list (N * N) * out :=
+  if cf.(msg_fd) cl && negb fdok then (replies, OErr from id serial ENotSupported) else
   if negb (cf.(pol_deliver) names cl) then (replies, OErr from id serial EAccessDenied) else
   if cf.(msg_reply) cl && (cf.(max_replies) <=? count_replies from replies) then (replies, OErr from id serial ELimitsExceeded) else
-  let replies1 := if cf.(msg_reply) cl then (from, o) :: replies else replies in
-  if cf.(msg_fd) cl && negb fdok then (replies1, OErr from id serial ENotSupported)
-  else (replies1, OFwd o id from serial).
+  ((if cf.(msg_reply) cl then (from, o) :: replies else replies), OFwd o id from serial).
 
 (* bus_activation_send_pending_auto_activation_messages: resume bus_dispatch_matches for every held message, in list
    order; a refusal is answered to the sender of that message and the loop carries on *)
